@@ -302,6 +302,28 @@ def run(ck: Check, prog: Program) -> None:
     if not okm:
         ck.finding('NAME-COMPOSE', merge.qualname, 'merge name composition', merge.module.rel, merge.node.lineno,
                    f'merge must store method.copy(name=<own prefix>.<name>) for every (name, method) of the other registry; {why}')
+    # the registry owns its table: it is never rebound (two registries sharing one table see each other's later registrations), and
+    # merge has no path that skips the copying loop
+    rebinds = []
+    for m_ in reg.methods.values():
+        if m_.name == '__init__':
+            continue
+        for x in walk_own(m_.node):
+            tg_ = x.targets if isinstance(x, ast.Assign) else [x.target] if isinstance(x, (ast.AnnAssign, ast.AugAssign)) else []
+            for t_ in tg_:
+                if dotted(t_) == f'self.{store_attr}':
+                    rebinds.append((m_, x))
+    early = [n for n in cfg.stmt_nodes() if n.kind == 'stmt' and isinstance(n.ast, ast.Return)] if len(heads) == 1 else []
+    early = [n for n in early if n.id in cfg.reachable(cfg.entry, avoid_nodes=[heads[0]])] if early else []
+    ok_own = not rebinds and not early
+    ck.ob('NAME-COMPOSE', 'a registry never shares or replaces its table; merge always copies', ok_own)
+    for m_, x in rebinds:
+        ck.finding('NAME-COMPOSE', m_.qualname, f'registry table rebound: {norm(x)[:50]}', m_.module.rel, x.lineno,
+                   f'`{norm(x)[:80]}` replaces the registry\'s own table: afterwards two registries share one mapping, so a method registered later on '
+                   f'one of them becomes callable through the other although it was never registered there')
+    for n in early:
+        ck.finding('NAME-COMPOSE', merge.qualname, 'merge returns without copying', merge.module.rel, n.line,
+                   'merge has a path that returns before the methods of the other registry were copied under their new names')
     # copy(): the name kwarg replaces the stored name
     from ..inline import inlined_program as _inl
     cprog = _inl(prog, ['pjrpc.server.dispatcher.Method.copy', 'pjrpc.server.dispatcher.ViewMethod.copy'])
